@@ -7,8 +7,13 @@
    from the log sequence).
    CONCURRENCY: the part of the property that quantifies over interleavings is reduced to C09_linear_serialized, which
    holds for ANY list of atomic insert events (see the HOOK in Ledger/HashChain.v); that the advisory lock of
-   InsertLog makes every schedule such a list is what the schedule harness checks on the real stack. *)
+   InsertLog makes every schedule such a list is what the schedule harness checks on the real stack.
+   The hook is DISCHARGED for the lock protocol itself in Props/C09c.v (exported below): on the interleaving model
+   Ledger/ConcChain.v - single writes and atomic bulks, any number of them, every schedule - each log insert of a READ COMMITTED
+   transaction holding the advisory lock IS HashChain.insert, so the table stays a linear chain (C09_conc_bulk_linear); at
+   REPEATABLE READ it does not (C09_conc_repeatable_read_forks). *)
 From Coq Require Import List ZArith Bool Lia Sorted String Ascii.
+From LV Require Export Props.C09c.   (* concurrent part: theorems over all schedules of the lock-protocol model Ledger/ConcChain.v *)
 From LV Require Import Base.Util Base.Json Ledger.Types Ledger.Core Ledger.Invariants Ledger.Hash Ledger.HashProofs Ledger.HashChain.
 Import ListNotations.
 Open Scope Z_scope.
